@@ -512,7 +512,9 @@ class PtBuild:
         for nd in nodes:
             args = [self.nodes[a] if is_ref(a) else dec_scalar(a) for a in nd["args"]]
             r = pt_apply(nd["op"], args, nd.get("params", {}))
-            if post is not None:
+            if post is not None and not any(r is a for a in args):
+                # (an operation that returns its operand itself -- roll by 0, reshape to the
+                # same shape -- is not a node of its own: decorating it would fork the operand)
                 r = post(nd["id"], r)
             self.nodes[nd["id"]] = r
 
